@@ -44,6 +44,10 @@ Theorem C11_component_missing : forall f D fs av es k, In k (map fst fs) -> vloo
   check (S f) D (IComp fs av) (VCtx es) = VNull.
 Proof. exact component_missing. Qed.
 
+(* fuel: once the fuel covers the type tree (components and reference chains), more fuel changes nothing *)
+Theorem C11_fuel_sufficient : forall f g D T v, enough f D T = true -> f <= g -> check g D T v = check f D T v.
+Proof. exact fuel_sufficient. Qed.
+
 (* output side: the result coerced to the declared type (C16) *)
 Theorem C11_output_coercion : forall f D r v, wf_defs D = true -> wfv v = true ->
   output_value f D r v = VNull \/ conformant (type_of (output_value f D r v)) (var_type f D r) = true.
@@ -102,6 +106,7 @@ Print Assumptions C11_result_conforms_or_null.
 Print Assumptions C11_idempotent.
 Print Assumptions C11_component_local.
 Print Assumptions C11_component_missing.
+Print Assumptions C11_fuel_sufficient.
 Print Assumptions C11_output_coercion.
 Print Assumptions C11_output_unchanged.
 Print Assumptions C11_output_wrap.
